@@ -245,6 +245,40 @@ theorem System_crash_context (s : SysState) (r : Request) (img : Bytes) (h : sys
   subst hi
   exact ⟨d, dt, hd, hdk, hctx', hsp', hip', e1, e2, e3⟩
 
+/-- **No crash context (C05, end to end).** Without a crash context the exception stream says "dump requested": code
+    `0xFFFFFFFF`, no flags, the blamed thread's instruction pointer as the address, and the context of the blamed
+    thread's own record (what ptrace reported for it). -/
+theorem System_dump_requested (s : SysState) (r : Request) (img : Bytes) (h : systemDump s r = .ok img)
+    (hc : r.crash = none)
+    (k : Nat) (t : TInfo) (hk : s.threads[k]? = some t) (hb : t.tid = r.blamed)
+    (huniq : ∀ j t', k < j → s.threads[j]? = some t' → t'.tid ≠ r.blamed) :
+    ∃ d dt, gatherDump s r = .ok d ∧ d.threads[k]? = some dt ∧ dt.ctx = t.ctx ∧
+      (dumpAcc d).dir[3]? = some ⟨ST_EXCEPTION, 168, (acc4 d).pos⟩ ∧
+      At img (acc4 d).pos (serExc r.blamed DUMP_REQUESTED 0 t.ip t.ctx.length (dt.ctxRva (threadPos d k))) ∧
+      At img (dt.ctxRva (threadPos d k)) t.ctx := by
+  obtain ⟨d, hd, hi⟩ := systemDump_ok s r img h
+  obtain ⟨hth, _, _, hbl, hcr, _⟩ := gatherDump_ok s r d hd
+  obtain ⟨_, htids, hget⟩ := E2E_threads _ _ _ _ _ _ _ hth
+  obtain ⟨dt, hdk, hgt⟩ := hget k t hk
+  obtain ⟨htid', _, hip', hctx', _, _⟩ := E2E_other_thread _ _ _ _ _ _ _ t dt (Or.inl (by rw [hc]; rfl)) hgt
+  have hlast : ∀ j t', k < j → d.threads[j]? = some t' → t'.tid ≠ d.blamed := by
+    intro j t' hj hj'
+    have := congrArg (fun l => l[j]?) htids
+    simp only [List.getElem?_map, hj', Option.map_some] at this
+    cases hsj : s.threads[j]? with
+    | none => rw [hsj] at this; cases this
+    | some tj =>
+      rw [hsj] at this
+      simp only [Option.map_some, Option.some.injEq] at this
+      rw [hbl, this]
+      exact huniq j tj hj hsj
+  have hdb : dt.tid = d.blamed := by rw [htid', hb, hbl]
+  obtain ⟨e1, e2, e3⟩ := Image_exception_listed d k dt hdk hdb hlast
+  have hdc : d.crash = none := by rw [hcr, hc]; rfl
+  simp only [hdc, hctx', hip', hbl] at e2 e3
+  subst hi
+  exact ⟨d, dt, hd, hdk, hctx', e1, e2, e3⟩
+
 /-- **Proof obligation over the regenerated source.** `gatherApp` records, for every region, what was copied: the
     descriptor in `app_memory::write` is the location of the copied bytes (or the writer is no longer recognisable). -/
 theorem gatherApp_descriptor_agrees : Src.appDescriptorOfCopy = none ∨ Src.appDescriptorOfCopy = some true := by decide
